@@ -79,13 +79,13 @@ def stepLine (g r l p a opn gr now : String) : String :=
     | none => "bad-arg"
     | some op =>
       let fuel := fuelFor s G roots
-      match GC.apply G roots fuel op s with
+      match GC.apply GC.Variant.current G roots fuel op s with
       | none => "fuel"
       | some s' =>
         let pruned : List Nat :=
           match op, GC.findReachable s G roots fuel with
-          | .prune grace now, some reach => GC.prunedLoose s reach grace now
-          | .gc true grace now, some reach => GC.toPrune s reach grace now
+          | .prune grace now, some reach => GC.prunedLoose GC.Variant.current s reach grace now
+          | .gc true grace now, some reach => GC.toPrune GC.Variant.current s reach grace now
           | _, _ => []
         s!"{showStore s'}|pruned={showIds (sortDedup pruned)}"
   | _, _, _, _, _ => "bad-arg"
@@ -122,7 +122,7 @@ def replay (c : Reader.Cfg) : Nat → Reader.RState → List Reader.FS → List 
             | .loose => s!"loose:{okStr (f.loose.contains c.x)}"
           replay c fuel (Reader.step c f r) rest (acc ++ [tok])
 
-def ireplay (ids : Nat → List Nat) (alts : List Nat) :
+def ireplay (ra : Bool) (ids : Nat → List Nat) (alts : List Nat) :
     Nat → Reader.IState → List Reader.FS → List String → List String × Reader.IState
   | 0, r, _, acc => (acc ++ ["fuel"], r)
   | fuel + 1, r, fss, acc =>
@@ -130,7 +130,7 @@ def ireplay (ids : Nat → List Nat) (alts : List Nat) :
     | .done => (acc ++ (if fss.isEmpty then [] else ["extra-fs"]), r)
     | _ =>
       match Reader.inextCall r with
-      | none => ireplay ids alts fuel (Reader.istep ids alts noFS r) fss acc
+      | none => ireplay ra ids alts fuel (Reader.istep ra ids alts noFS r) fss acc
       | some call =>
         match fss with
         | [] => (acc ++ ["need-fs"], r)
@@ -140,7 +140,7 @@ def ireplay (ids : Nat → List Nat) (alts : List Nat) :
             | .data p => s!"data:{p}:?"
             | .listdir => "listdir"
             | .loose => "loose"
-          ireplay ids alts fuel (Reader.istep ids alts f r) rest (acc ++ [tok])
+          ireplay ra ids alts fuel (Reader.istep ra ids alts f r) rest (acc ++ [tok])
 
 def lookupLine (kind x n reprobe alts packids cache idxL dataL : String) (fss : List String) : String :=
   match nat? x, nat? n, bool? reprobe, ids? alts, keyed? packids, ids? cache, ids? idxL, ids? dataL, fss.mapM fs? with
@@ -152,13 +152,13 @@ def lookupLine (kind x n reprobe alts packids cache idxL dataL : String) (fss : 
     s!"{";".intercalate toks}|cache={showIds r.cache}|idx={showIds (sortDedup r.idxLoaded)}|data={showIds (sortDedup r.dataLoaded)}"
   | _, _, _, _, _, _, _, _, _ => "bad-arg"
 
-def iterLine (alts packids cache idxL : String) (fss : List String) : String :=
-  match ids? alts, keyed? packids, ids? cache, ids? idxL, fss.mapM fs? with
-  | some alts, some pk, some cache, some il, some fss =>
-    let (toks, r) := ireplay (lookupFn pk) alts (20 * (cache.length + pk.length + fss.length + 5))
+def iterLine (ra alts packids cache idxL : String) (fss : List String) : String :=
+  match bool? ra, ids? alts, keyed? packids, ids? cache, ids? idxL, fss.mapM fs? with
+  | some ra, some alts, some pk, some cache, some il, some fss =>
+    let (toks, r) := ireplay ra (lookupFn pk) alts (20 * (cache.length + pk.length + fss.length + 5))
       (Reader.IState.init cache il) fss []
     s!"{";".intercalate toks}|ids={showIds (sortDedup r.acc)}|cache={showIds r.cache}|idx={showIds (sortDedup r.idxLoaded)}"
-  | _, _, _, _, _ => "bad-arg"
+  | _, _, _, _, _, _ => "bad-arg"
 
 def handle (op : String) (args : List String) : Option String :=
   match op, args with
@@ -172,13 +172,13 @@ def handle (op : String) (args : List String) : Option String :=
   | "c10.step", [g, r, l, p, a, opn, gr, now] => some (stepLine g r l p a opn gr now)
   | "c10.lookup", kind :: x :: n :: rp :: alts :: pk :: cache :: il :: dl :: fss =>
       some (lookupLine kind x n rp alts pk cache il dl fss)
-  | "c10.iter", alts :: pk :: cache :: il :: fss => some (iterLine alts pk cache il fss)
-  | "c10.check", [pstar, prog] => some <|
-      match nat? pstar, pairs? prog with
-      | some ps, some pr => showBool (Reader.checkProgram ps false false (pr.map Reader.Act.ofCode))
-      | _, _ => "bad-arg"
+  | "c10.iter", ra :: alts :: pk :: cache :: il :: fss => some (iterLine ra alts pk cache il fss)
+  | "c10.check", [pstar, prot, prog] => some <|
+      match nat? pstar, ids? prot, pairs? prog with
+      | some ps, some pt, some pr => showBool (Reader.checkProgram ps pt false false (pr.map Reader.Act.ofCode))
+      | _, _, _ => "bad-arg"
   | "c10.consts", [] => some
-      s!"{Gen.GC.maxPackRescanAttempts} {Gen.GC.defaultGracePeriod} {Gen.GC.defaultPruneExpire} {Gen.GC.defaultTempfileGracePeriod} {showBool Gen.GC.getRawReprobesPacks}"
+      s!"{Gen.GC.maxPackRescanAttempts} {Gen.GC.defaultGracePeriod} {Gen.GC.defaultPruneExpire} {Gen.GC.defaultTempfileGracePeriod} {showBool Gen.GC.getRawReprobesPacks} {showBool Gen.GC.containsReprobesPacks} {showBool Gen.GC.iterRescansAfterLoose} {showBool Gen.GC.getObjectMtimeUsesMax} {showBool Gen.GC.completePackRefreshesMtime}"
   | _, _ => none
 
 end DriverC10
